@@ -147,7 +147,14 @@ def _single_option_pred(opt):
     return lambda case, failure: True
 
 
+def _keep_all_propagate_recursive(case, failure):
+    if not gp.cyclic_preds(case["prog"])[2]:
+        return False
+    return any(o.get("keep_all") and (o.get("propagate_weights") or o.get("propagate_evidence")) for o in case["optsets"])
+
+
 KNOWN_CLASSES = {
+    "keep_all_propagate_recursive": _keep_all_propagate_recursive,
     "always": lambda case, failure: True,
     "negcycle_fp": lambda case, failure: gp.neg_on_cyclic_goal_under_active_cycle(case["prog"]),
     "neg_under_cycle": lambda case, failure: gp.neg_under_active_cycle(case["prog"]),
